@@ -111,6 +111,8 @@ package task
 // Every requested call is looked up before anything runs; if one of them names an internal task the invocation
 // ends with the internal-task error (code 202) and no task is started, in sequence or in parallel.
 //@ ghost var anyInternal bool scratch
+//@ ghost var seqErr error scratch
+//@ ghost var parErr error scratch
 //@ ghost var nVetted int scratch
 //@ func (*Executor).Run
 //@   entry tok == 0     -- API entry point: the goroutine that starts an invocation holds no concurrency slot
@@ -125,6 +127,16 @@ package task
 //@   site (*Group).Go#0 requires !anyInternal && nVetted == len(calls)                                      [C13]
 //@   site (*Executor).watchTasks#0 requires !anyInternal && nVetted == len(calls)                           [C13]
 //@   ensures anyInternal ==> result != nil && dyn(result) == type(*errors.TaskInternalError)                [C13]
+// C03: what fails the invocation is the error of the task that failed, itself - the first one when tasks run in
+// parallel: its type is what the process exit status is computed from (task-run error 201 or the command's own
+// code, the class codes of the guards)
+//@   init seqErr := nil
+//@   init parErr := nil
+//@   site (*Executor).RunTask#0 ghost seqErr := result
+//@   site (*Group).Wait#0 ghost parErr := result
+//@   loop 6 invariant seqErr == nil                                                                         [C03,C13]
+//@   ensures seqErr != nil ==> result == seqErr                                                             [C03,C13]
+//@   ensures seqErr == nil && parErr != nil ==> result == parErr                                            [C03,C13]
 // C12: --summary prints and returns: no task is started
 //@   site (*Executor).RunTask#0 requires !e.Summary                                                         [C12]
 //@   site (*Group).Go#0 requires !e.Summary                                                                 [C12]
@@ -560,6 +572,10 @@ package task
 // the command of a dynamic variable runs under a context of its own, never under the (possibly cancelled)
 // context of the run: a deferred task call is compiled - its sh: variables evaluated - after a sibling's failure
 // has cancelled everything else, and what it evaluates to does not depend on who was cancelled when
+// a dynamic variable whose command fails is a compile error of the task, reported as text: it is never an error
+// that unwraps to an exit status (ignore_error, which forgives commands that exit non-zero, must not forgive it,
+// and it is not a task-run error for the exit code)
+//@   site fmt.Errorf#0 requires arg0 == "task: Command \"%s\" failed: %s"                                          [C03]
 //@   init dynCtx := nil
 //@   site context.Background#1 ghost dynCtx := result
 //@   site execext.RunCommand#0 requires arg0 == dynCtx                                                         [C14,C11]
